@@ -100,7 +100,7 @@ fn main() {
     ckb_logger::debug!("hx-poolchain start");
     let (n_hist, steps) = match (thorough, std::env::var("HX_HIST").ok().and_then(|s| s.parse::<u64>().ok())) {
         (_, Some(n)) => (n, env_u64("HX_STEPS", 60)),
-        (false, None) => (env_u64("HX_HIST_QUICK", 40), 60),
+        (false, None) => (env_u64("HX_HIST_QUICK", 30), 60),
         (true, None) => (600, 90),
     };
     let replay = std::env::var("HX_REPLAY").ok();
